@@ -631,7 +631,14 @@ pub fn div<
         // Optimize division as multiplication-by-reciprocal.
         //
         // This loses some precision, so we might want to revisit this in future.
-        (false, Some(scalar)) => mul(pool, a, Tensor::from_scalar(T::one() / *scalar).view()),
+        //
+        // The reciprocal keeps the shape of `b`, so that the result has the
+        // broadcast shape of `a` and `b` (eg. `[] / [1]` has shape `[1]`).
+        (false, Some(scalar)) => mul(
+            pool,
+            a,
+            Tensor::full(b.shape(), T::one() / *scalar).view(),
+        ),
         _ => binary_op(pool, a, b, &|x, y| x / y),
     }
 }
